@@ -245,14 +245,17 @@ Clauses(ln, st) ==
   CASE ln.ev = "new" ->
          << <<"Returns", ln.exc = "">>,
             <<"OnGrid", ln.exc = "" => ln.ongrid>>,
-            <<"WellFormed", (ln.exc = "" /\ ln.ongrid) => Len(ln.val) = Len2(ln.kind, ln.dims)>> >>
+            <<"WellFormed", (ln.exc = "" /\ ln.ongrid) => Len(ln.val) = Len2(ln.kind, ln.dims)>>,
+            <<"ShapeExact", ln.exc = "" => ln.odims = ln.dims>> >>
     [] ln.ev = "gen" ->
          << <<"Returns", ln.exc = "">>,
             <<"OnGrid", ln.exc = "" => ln.ongrid>>,
+            <<"ShapeExact", ln.exc = "" => ln.odims = ln.dims>>,
             <<"GeneratorExact", (ln.exc = "" /\ ln.ongrid) => ln.val = GenValue(ln)>> >>
     [] ln.ev = "from_dense" ->
          << <<"Returns", ln.exc = "">>,
             <<"OnGrid", ln.exc = "" => ln.ongrid>>,
+            <<"ShapeExact", ln.exc = "" => ln.odims = FromDenseDims(ln)>>,
             <<"RoundTrip", (ln.exc = "" /\ ln.ongrid) => ln.val = FromDenseValue(ln)>> >>
     [] ln.ev = "to_dense" ->
          IF ~Known(st, <<ln.src>>) THEN << <<"UnknownOperand", FALSE>> >>
@@ -266,7 +269,7 @@ Clauses(ln, st) ==
 
 NextStore(ln, st) ==
   CASE ln.ev = "new" ->
-         IF ln.exc = "" /\ ln.ongrid /\ Len(ln.val) = Len2(ln.kind, ln.dims)
+         IF ln.exc = "" /\ ln.ongrid /\ Len(ln.val) = Len2(ln.kind, ln.dims) /\ ln.odims = ln.dims
          THEN Put(st, ln.name, Obj(ln.kind, ln.dims, ln.val, ln.bonds)) ELSE st
     [] ln.ev = "gen" ->
          Put(st, ln.name, Obj(ln.kind, ln.dims,
